@@ -7,8 +7,13 @@
    index and validates every recorded token list against SyltLex's actions with the spec invariants evaluated in
    every state. REJECT lines are the verdicts. Universes: strings / fragments / random longer texts (round 1);
    ustrings, uctx (every class of non-token characters next to everything), numgram, numctx (number grammar),
-   files (how files begin and end), long (very long lines, very many lines) (round 2).
-3. Negative controls: a stub tokenizer that never counts lines, and one that swallows a byte-order mark, must be rejected.
+   files (how files begin and end), long (very long lines, very many lines) (round 2); actx (every 7-bit character
+   between contexts: before LF / CR LF / end / digit / letter, inside strings and comments, with lines after it), apair
+   (every pair of 7-bit characters), bigint (digit runs around 2^k and 10^k: the VALUE boundary of the Int token),
+   floatlim (float forms at the limits of the double range), longnum (digit runs of up to 310 digits) (round 3).
+   Round 3: every recorded Int / Float token carries its value; the specification (SyltLexNum) decides kind AND value.
+3. Negative controls: a stub tokenizer that never counts lines, one that swallows a byte-order mark and one whose number
+   values went through 32-bit types must be rejected.
 
 The traces are cut into shards and several TLC processes run side by side (one TLC does not scale beyond ~4 workers
 on this workload).
@@ -52,6 +57,10 @@ def signature(rec, rej):
     if why == "token-mismatch" and j < len(toks):
         got = toks[j]
         one = exp[0] if exp and isinstance(exp, list) and len(exp) == 1 else None
+        if rej.get("valbad") and one:
+            # kind, text and span are the expected ones, the VALUE of the number token is not
+            digits = len(one["txt"].lstrip("0")) if one["k"] == "int" else 0
+            return "C17|value|%s|%s" % (one["k"], ("digits>18" if digits > 18 else "digits<=18") if one["k"] == "int" else "float")
         if rej.get("numlike") and got["k"] == "err":
             # the recorded error token would be an int/float if its non-ASCII decimal digits were ASCII digits
             return "C17|uni-digit-read-as-digit-of-number|spec=%s" % (one["k"] if one else "err")
@@ -160,7 +169,7 @@ def collect(job, ev, verdicts, action_guard=True):
         if i == 0:
             actions = {k: v[1] for k, v in r.coverage.items() if k.startswith("Trace")}
         if i == 0 and action_guard:
-            need_acts = ["TraceEmit", "TraceAccept"] + {"long": ["TracePrefix"], "numgram": []}.get(job.universe, ["TraceSkip"])
+            need_acts = ["TraceEmit", "TraceAccept"] + {"long": ["TracePrefix"], "numgram": [], "longnum": []}.get(job.universe, ["TraceSkip"])
             for act in need_acts:
                 if r.coverage.get(act, (0, 0))[1] == 0:
                     vlib.tool_error("vacuity: trace action %s never taken in %s" % (act, job.name))
@@ -295,6 +304,36 @@ def run(ctx):
     jobs.append(Job("file-corners", t, "files", {"EXHLEN": 1, "EXPECT_EXH": o[1]}))
     t, o = rec("long", [10 if quick else 120, 140000 if quick else 270000], "long")
     jobs.append(Job("long-texts", t, "long", weight=4000))
+    # round 3
+    t, o = rec("actx", [], "actx")
+    jobs.append(Job("ascii-contexts", t, "actx", {"EXHLEN": 1, "EXPECT_EXH": o[1]}))
+    p_exh = 1 if quick else 4
+    t, o = rec("apair", [p_exh, 2000 if quick else 0], "apair")
+    jobs.append(Job("ascii-pairs", t, "apair", {"EXHLEN": p_exh, "EXPECT_EXH": o[1]}, weight=3))
+    b_exh = 5 if quick else 60
+    t, o = rec("bigint", [b_exh, 3000 if quick else 0], "bigint")
+    jobs.append(Job("int-value-boundary", t, "bigint", {"EXHLEN": b_exh, "EXPECT_EXH": o[1]}, weight=3))
+    f_exh = 1 if quick else 16
+    t, o = rec("floatlim", [f_exh, 2000 if quick else 0], "floatlim")
+    jobs.append(Job("float-limits", t, "floatlim", {"EXHLEN": f_exh, "EXPECT_EXH": o[1]}, weight=3))
+    t, o = rec("longnum", [], "longnum")
+    jobs.append(Job("long-numbers", t, "longnum", {"EXHLEN": 1, "EXPECT_EXH": o[1]}, weight=150))
+    # C17_ONLY=<universe,...>: while working on one family, validate only those universes (no spec model, no negative
+    # controls, no neighbour guard; the evidence says so).  The registered check never sets it.
+    only = [u for u in os.environ.get("C17_ONLY", "").split(",") if u]
+    if only:
+        jobs = [jb for jb in jobs if jb.universe in only]
+        if not jobs:
+            vlib.tool_error("C17_ONLY names no universe: %r" % only)
+        run_jobs(wd, jobs)
+        for job in jobs:
+            collect(job, ev, verdicts)
+        ev.set(samples=[jb.recs[len(jb.recs) // 2].get("raw", jb.recs[len(jb.recs) // 2]["input"])[:80] for jb in jobs],
+               partial_run_only=only)
+        rc = verdicts.finish()
+        ev.violations = len(verdicts.violations)
+        ev.write()
+        return rc
     for job in jobs:
         if "EXPECT_EXH" in job.env and len(job.recs) < int(job.env["EXPECT_EXH"]):
             vlib.tool_error("%s: %d records, %s exhaustive ones announced" % (job.name, len(job.recs), job.env["EXPECT_EXH"]))
@@ -304,6 +343,8 @@ def run(ctx):
     neg1 = Job("negative-control-lines", t, "free", control=True, weight=3)
     t, o = rec("files", [], "neg-bom", env={"C17_STUB": "bom"})
     neg2 = Job("negative-control-bom", t, "files", {"EXHLEN": 1, "EXPECT_EXH": o[1]}, control=True)
+    t, o = rec("longnum", [], "neg-narrow", env={"C17_STUB": "narrow"})
+    neg3 = Job("negative-control-values", t, "longnum", {"EXHLEN": 1, "EXPECT_EXH": o[1]}, control=True, weight=150)
 
     # ---- TLC: the specification on its own, and all traces, side by side -------------------------------------
     def spec_model():
@@ -311,7 +352,7 @@ def run(ctx):
         os.makedirs(swd, exist_ok=True)
         return vlib.tlc("MC_Lex", wd=swd, timeout=1800, workers=WORKERS, xmx="4g", out_file=os.path.join(wd, "tlc-MC_Lex.out"))
 
-    extra = run_jobs(wd, jobs + [neg1, neg2], extra=[spec_model])
+    extra = run_jobs(wd, jobs + [neg1, neg2, neg3], extra=[spec_model])
     r = extra[spec_model]
     vlib.require_tlc_ok(r, "SyltLex generator model")
     for act in ("SkipBlank", "EmitLongest", "EmitError"):
@@ -340,7 +381,7 @@ def run(ctx):
 
     # negative controls must be rejected
     nrej = {}
-    for neg in (neg1, neg2):
+    for neg in (neg1, neg2, neg3):
         neg_v = vlib.Verdicts(PID, control=True)
         neg_v.known = []
         neg_ev = vlib.Evidence(PID, tier, "model_checking")
@@ -350,6 +391,8 @@ def run(ctx):
         vlib.tool_error("negative control accepted: a tokenizer that never counts lines was not rejected")
     if not nrej[neg2.name]:
         vlib.tool_error("negative control accepted: a tokenizer that drops a leading byte-order mark was not rejected")
+    if not nrej[neg3.name]:
+        vlib.tool_error("negative control accepted: number values that went through 32-bit types were not rejected")
     ev.set(negative_controls_rejected=sum(nrej.values()), negative_controls=nrej)
 
     ev.set(samples=samples, exhaustive=True,
@@ -358,12 +401,18 @@ def run(ctx):
                 "strings of length<=%d over 9 token characters + 15 representatives of the 8 classes of non-token characters and "
                 "sampled ones of length 4; context x 25 representatives x context; all strings of length<=%d over {1 . e E + - a _} "
                 "and sampled longer / embedded ones; head x body x tail file corners; sampled unit^count+window texts with "
-                "counts 255..65537); a case is non-trivial when it yields >=1 token" % (maxlen, u_exh, n_exh),
+                "counts 255..65537; context x each of the 128 7-bit characters x context; all pairs of 7-bit characters in %d of 4 contexts; "
+                "digit runs around 2^k and 10^k x 10 variations x leading zeros in %d of 60 contexts (+ samples); integer part x float "
+                "tail in %d of 16 contexts (+ samples); digit runs of 19..310 digits in 7 number forms); a case is non-trivial when "
+                "it yields >=1 token" % (maxlen, u_exh, n_exh, p_exh, b_exh, f_exh),
            distinct_nontrivial=sum(1 for job in jobs for rc in job.recs if rc["toks"]),
            known_findings_hit=verdicts.known_hits)
     ev.assume("TLC and the SyltLex module are the reference; error-token extents are unconstrained by the property",
               "characters outside the token alphabet reach TLC as one ASCII stand-in per Unicode class; the class table of the "
               "recorder (general categories of the representatives, cross-checked against std's predicates) is trusted",
+              "number values are compared as strings: Int in decimal, Float in the recorder's shortest round-trip scientific form "
+              "(Rust's {:e}); the specification fixes a float's class always and its exact value for <= 15 significant digits "
+              "and exponents -300..300",
               "texts of the long universe: the periodic prefix is validated by token count and sampled tokens (positions still "
               "derived from the whole text), only the window token by token")
     rc = verdicts.finish()
